@@ -162,7 +162,7 @@ class SQLiteAlterTableSQLResult(AlterTableSQLResult):
 
                 field_values[new_column] = qn(old_column)
 
-        field_initials = []
+        field_initials_by_column = {}
 
         # If we have any new fields, add their defaults.
         if new_initial:
@@ -177,13 +177,22 @@ class SQLiteAlterTableSQLResult(AlterTableSQLResult):
                     if embed_initial:
                         field_values[column] = initial
                     else:
-                        field_initials.append(initial)
+                        field_initials_by_column[column] = initial
 
                         if column in field_values:
                             field_values[column] = \
                                 'coalesce(%s, %%s)' % qn(column)
                         else:
                             field_values[column] = '%s'
+
+        # The parameters must be listed in the same order as their
+        # placeholders, which follow the column order of field_values and
+        # not the order in which the initial values were registered.
+        field_initials = [
+            field_initials_by_column[column]
+            for column in six.iterkeys(field_values)
+            if column in field_initials_by_column
+        ]
 
         # The SQLite documentation defines the steps that should be taken to
         # safely alter the schema for a table. Unlike most types of databases,
